@@ -9,7 +9,7 @@ import Uft.Model.Graph
    name <fixed> <hex>                -> "<oob> <term> <pos> <hex of name_buf string>"
    chrome <fixed> <exename> <version> <date> <cmdline|~> | syms | tid:pid … | recs
                                      -> "<oob> <hex of the whole output>"
-   flame <st | auto:total> | syms | tid:pid … | recs          -> hex of the output
+   flame <fixed> <st | auto:total> | syms | tid:pid … | recs          -> hex of the output
    graphviz <exename> <version> <cmdline|~> | syms | tasks | recs -> hex of the output
    mermaid <exename> | syms | tasks | recs                    -> hex of the edge lines
    graph <exename> | syms | tasks | recs   -> "depth:namehex:calls:time:self …" pre-order
@@ -94,10 +94,10 @@ def handle (ws : List String) : String :=
                        evs := os.map fun o => ⟨o.entry, o.tid, pidOf ts o.tid, o.name, o.time⟩ }
       s!"{b2s (chromeOob (f = "1") d)} {hex (chromeOutput (f = "1") d)}"
     | _, _, _, _, _ => "bad-op"
-  | [["flame", st], syms, tasks, recs] =>
+  | [["flame", f, st], syms, tasks, recs] =>
     let st? : Option Nat := if st.startsWith "auto:" then ((st.drop 5).toString.toNat?).map autoSample else st.toNat?
     match st?, trace syms tasks recs with
-    | some st, some (_, os) => hex (flameText st (build (some st) (G.init []) os).root)
+    | some st, some (_, os) => hex (flameText (f = "1") st (build (some st) (G.init []) os).root)
     | _, _ => "bad-op"
   | [["graphviz", exe, ver, cmd], syms, tasks, recs] =>
     match bytes exe, bytes ver, optBytes cmd, trace syms tasks recs with
